@@ -1347,6 +1347,13 @@ class Container:
             x, y = numpy.linalg.solve(a, b)
         except numpy.linalg.LinAlgError:
             raise ValueError("Solution is impossible to create.")
+        # a source that already has the desired concentration needs no solvent (and a solvent container that has it, no
+        # source): float noise can leave that amount a hair below zero
+        noise = 1e-9 * (abs(x) + abs(y))
+        if -noise < y < 0:
+            y = 0.0
+        if -noise < x < 0:
+            x = 0.0
         if x < 0 or y < 0:
             raise ValueError("Solution is impossible to create.")
 
